@@ -269,6 +269,15 @@ fn ctor_oracle(c: &Ctor) -> Verdict {
             }
             Err(err) => return Verdict::Fail(format!("{:?} does not parse: {:?}", txt, err)),
         }
+        // other spellings of the same text (identifier glued to the number, padding, doubled blanks): whether they
+        // are accepted is not documented, but an accepted one denotes the same value
+        let (id, sc) = (if c.k < 2 { "MJD" } else { "JD" }, if c.k % 2 == 0 { "TAI" } else { "UTC" });
+        for v in [format!("{id}{x} {sc}"), format!(" {id} {x} {sc}"), format!("{id} {x} {sc} "), format!("\t{id}  {x}  {sc}\n"), format!("{id} {x}{sc}")] {
+            if let Ok(e) = lib!(<Epoch as std::str::FromStr>::from_str(&v)) {
+                let b2 = match c.k { 0 => lib!(e.to_mjd_tai_days()), 1 => lib!(e.to_mjd_utc_days()), 2 => lib!(e.to_jde_tai_days()), _ => lib!(e.to_jde_utc_days()) };
+                ensure!((b2 - x).abs() <= tol, "text {:?} is accepted but reads back {:e} (difference {:e} > {:e})", v, b2, (b2 - x).abs(), tol);
+            }
+        }
     }
     ensure!((back - x).abs() <= tol, "view {}: built from {:e}, read back {:e} (difference {:e} > {:e})", c.k, x, back, (back - x).abs(), tol);
     Verdict::Pass("constructor-round-trip", true)
